@@ -4,13 +4,19 @@ Interprets only: CASE [operand] WHEN .. THEN .. [ELSE ..] END, AND/OR/NOT, compa
 COALESCE, parentheses, placeholders, numeric constants, unary minus, TRUE/FALSE.  Anything else raises
 Opaque: the calling rule then abstains for that template.  It interprets SQL text extracted from the source;
 no repository code runs.
+
+For arithmetic templates (value tables of `%` and `//`) it also knows `%`, string constants, typeof() and FLOOR(), with SQLite's arithmetic:
+`/` and `%` between two integers are the truncating quotient and remainder (sign of the dividend), a zero divisor gives NULL, a comparison in
+a numeric position counts 1 / 0.  Python ints stand for INTEGER values, floats for REAL.
 """
 from __future__ import annotations
 
 import re
 from typing import Any, Dict, List, Optional, Tuple
 
-TOKEN = re.compile(r"\s*(>=|<=|<>|!=|=|<|>|\(|\)|,|-|\+|\*|/|[A-Za-z_][A-Za-z_0-9]*|\d+(?:\.\d+)?)")
+TOKEN = re.compile(r"\s*(>=|<=|<>|!=|=|<|>|\(|\)|,|-|\+|\*|/|%|'[^']*'|[A-Za-z_][A-Za-z_0-9]*|\d+(?:\.\d+)?)")
+# functions with a fixed arithmetic meaning the evaluator knows (SQLite semantics; FLOOR as registered by the library)
+FUNCTIONS = {"TYPEOF", "FLOOR"}
 KEYWORDS = {"CASE", "WHEN", "THEN", "ELSE", "END", "AND", "OR", "NOT", "IS", "NULL", "TRUE", "FALSE", "COALESCE"}
 
 
@@ -93,8 +99,15 @@ class Parser:
         return left
 
     def add(self):
+        left = self.mul()
+        while self.peek() in ("+", "-"):
+            op = self.eat()
+            left = ("arith", op, left, self.mul())
+        return left
+
+    def mul(self):
         left = self.primary()
-        while self.peek() in ("+", "-", "*", "/"):
+        while self.peek() in ("*", "/", "%"):
             op = self.eat()
             left = ("arith", op, left, self.primary())
         return left
@@ -147,10 +160,18 @@ class Parser:
             return ("bool", u == "TRUE")
         if re.fullmatch(r"\d+(?:\.\d+)?", p):
             self.eat()
-            return ("num", float(p))
+            return ("num", float(p) if "." in p else int(p))
+        if p.startswith("'") and p.endswith("'") and len(p) >= 2:
+            self.eat()
+            return ("str", p[1:-1])
         if re.fullmatch(r"[A-Za-z_][A-Za-z_0-9]*", p):
             self.eat()
             if self.peek() == "(":
+                if u in FUNCTIONS:
+                    self.eat("(")
+                    a = self.expr()
+                    self.eat(")")
+                    return ("fn", u, a)
                 raise Opaque(f"function {p}")
             if u in KEYWORDS:
                 raise Opaque(f"keyword {p} in value position")
@@ -178,14 +199,50 @@ def ev(e, env: Dict[str, Any]):
     if k == "neg":
         v = ev(e[1], env)
         return None if v is None else -v
+    if k == "str":
+        return e[1]
+    if k == "fn":
+        v = ev(e[2], env)
+        if e[1] == "TYPEOF":
+            return "null" if v is None else ("integer" if isinstance(v, int) and not isinstance(v, bool) else ("real" if isinstance(v, float) else "text"))
+        if e[1] == "FLOOR":
+            import math
+            if v is None:
+                return None
+            return math.floor(v) if isinstance(v, int) else float(math.floor(v))
+        raise Opaque(f"function {e[1]}")
     if k == "arith":
         a, b = ev(e[2], env), ev(e[3], env)
         if a is None or b is None:
             return None
+        if isinstance(a, bool):
+            a = int(a)
+        if isinstance(b, bool):
+            b = int(b)
+        op = e[1]
         try:
-            return {"+": a + b, "-": a - b, "*": a * b, "/": a / b if b != 0 else None}[e[1]]
+            if op == "+":
+                return a + b
+            if op == "-":
+                return a - b
+            if op == "*":
+                return a * b
+            if op == "/":
+                if b == 0:
+                    return None
+                if isinstance(a, int) and isinstance(b, int):
+                    q = abs(a) // abs(b)
+                    return q if (a >= 0) == (b >= 0) else -q  # SQLite: integer division truncates towards zero
+                return a / b
+            if op == "%":
+                ia, ib = int(a), int(b)  # SQLite casts both operands to INTEGER
+                if ib == 0:
+                    return None
+                r = abs(ia) % abs(ib)
+                return r if ia >= 0 else -r  # sign of the dividend
         except Exception:
             raise Opaque("arithmetic")
+        raise Opaque(f"operator {op}")
     if k == "cmp":
         a, b = ev(e[2], env), ev(e[3], env)
         if a is None or b is None:
